@@ -1,1 +1,3 @@
-//! Exploration engines (E-seq, E-in helpers, E-fault, E-sched).
+//! Exploration engines. E-seq / E-in / E-fault are small enough to live inside the property
+//! modules; the schedule explorer (E-sched) has a subject side (hook H1) and this harness side.
+pub mod sched;
